@@ -19,6 +19,7 @@ import (
 	"strings"
 	"sync"
 	"time"
+	"unicode/utf8"
 
 	hcl "Havoc/pkg/profile/yaotl"
 	"Havoc/pkg/profile/yaotl/ext/tryfunc"
@@ -193,8 +194,13 @@ func derivedSpec(b *hclsyntax.Body, depth int) hcldec.Spec {
 // ---------------------------------------------------------------------------------
 // range helpers
 
+// rangeProblem classifies a range against an input of n bytes. "unset" is the zero
+// hcl.Range (no file name although every token carries one): a range the parser never
+// filled in.
 func rangeProblem(r hcl.Range, n int) string {
 	switch {
+	case r == hcl.Range{}:
+		return "unset"
 	case r.Start.Byte < 0 || r.End.Byte < 0:
 		return "negative"
 	case r.Start.Byte > r.End.Byte:
@@ -311,6 +317,7 @@ func checkTokens(mode string, src []byte, toks hclsyntax.Tokens, template bool, 
 		posn = 3
 	}
 	prevType := hclsyntax.TokenNil
+	validUTF8 := utf8.Valid(src)
 	inTemplateMode := template // at the very start of LexTemplate the scanner is in bareTemplate
 	for i, tk := range toks {
 		s, e := tk.Range.Start.Byte, tk.Range.End.Byte
@@ -339,12 +346,17 @@ func checkTokens(mode string, src []byte, toks hclsyntax.Tokens, template bool, 
 				return core.V("lex|gap-in-template|"+mode+"|after-"+prevType.String(), "blanks %q at %d..%d skipped inside a template (after %s); input %s", gap, posn, s, prevType, clipQ(src))
 			}
 		}
-		// line numbers: one more than the number of newlines before the offset
-		if want := 1 + bytes.Count(src[:s], []byte{'\n'}); tk.Range.Start.Line != want {
-			return core.V("lex|line|"+mode+"|"+tk.Type.String(), "token %d (%s) at byte %d reports line %d, %d newlines precede it; input %s", i, tk.Type, s, tk.Range.Start.Line, want-1, clipQ(src))
-		}
-		if want := 1 + bytes.Count(src[:e], []byte{'\n'}); tk.Range.End.Line != want {
-			return core.V("lex|line-end|"+mode+"|"+tk.Type.String(), "token %d (%s) ending at byte %d reports end line %d, %d newlines precede it; input %s", i, tk.Type, e, tk.Range.End.Line, want-1, clipQ(src))
+		// line numbers: one more than the number of newlines before the offset. Asserted for
+		// well-formed UTF-8 only: the identifier rule of the scanner (unicode_derived.rl) accepts
+		// any byte as a continuation byte, so e.g. C4 0A lexes as one identifier and swallows the
+		// newline; positions inside ill-formed text are not claimed to be meaningful.
+		if validUTF8 {
+			if want := 1 + bytes.Count(src[:s], []byte{'\n'}); tk.Range.Start.Line != want {
+				return core.V("lex|line|"+mode+"|"+tk.Type.String(), "token %d (%s) at byte %d reports line %d, %d newlines precede it; input %s", i, tk.Type, s, tk.Range.Start.Line, want-1, clipQ(src))
+			}
+			if want := 1 + bytes.Count(src[:e], []byte{'\n'}); tk.Range.End.Line != want {
+				return core.V("lex|line-end|"+mode+"|"+tk.Type.String(), "token %d (%s) ending at byte %d reports end line %d, %d newlines precede it; input %s", i, tk.Type, e, tk.Range.End.Line, want-1, clipQ(src))
+			}
 		}
 		if tk.Type == hclsyntax.TokenEOF && i != len(toks)-1 {
 			return core.V("lex|eof-not-last|"+mode, "EOF token at index %d of %d", i, len(toks))
@@ -410,6 +422,7 @@ func rangeFields(t reflect.Type) []fieldInfo {
 type found struct {
 	depth int
 	start int
+	unset bool
 	v     *core.Violation
 }
 
@@ -417,12 +430,23 @@ type frame struct {
 	node        hclsyntax.Node
 	rng         hcl.Range
 	transparent bool
+	tainted     bool // an error placeholder, or a node with one below it
 	children    []childInfo
 }
 
 type childInfo struct {
-	node hclsyntax.Node
-	rng  hcl.Range
+	node    hclsyntax.Node
+	rng     hcl.Range
+	tainted bool
+}
+
+// isErrPlaceholder recognises the node the parser synthesises where an expression could
+// not be parsed: a LiteralValueExpr holding cty.DynamicVal (parser.go parseExpressionTerm
+// default case, errPlaceholderExpr, the error exits of finishParsingForExpr). No literal
+// in the source produces that value.
+func isErrPlaceholder(n hclsyntax.Node) bool {
+	l, ok := n.(*hclsyntax.LiteralValueExpr)
+	return ok && l.Val.RawEquals(cty.DynamicVal)
 }
 
 // rangeWalker checks, for every node reachable through hclsyntax.Walk:
@@ -442,6 +466,15 @@ type childInfo struct {
 //     for the iteration item, not for a piece of the traversal text, so an
 //     AnonSymbolExpr is only required to lie inside the input, not inside its parent.
 //
+//   - Error placeholders. Where an expression cannot start, parseExpressionTerm returns a
+//     LiteralValueExpr(cty.DynamicVal) whose range is the offending token WITHOUT consuming
+//     it ("Return a placeholder so that the AST is still structurally sound"), while the
+//     enclosing Attribute / collection ends at the last consumed token (p.PrevRange()).
+//     The placeholder therefore lies just beyond its parent's end by construction, and so
+//     does every ancestor whose End is computed from it (UnaryOpExpr, ...). For a placeholder
+//     and for nodes with a placeholder below them only "does not start before the parent"
+//     is asserted.
+//
 // When several violations exist in one tree the deepest one is reported (ties: the
 // smallest start offset, then the signature), so that the result does not depend on
 // map iteration order and a parent whose range is derived from a broken child range
@@ -453,7 +486,7 @@ type rangeWalker struct {
 }
 
 func (w *rangeWalker) add(depth, start int, v *core.Violation) {
-	w.found = append(w.found, found{depth, start, v})
+	w.found = append(w.found, found{depth, start, strings.Contains(v.Sig, "|unset|"), v})
 }
 
 func (w *rangeWalker) Enter(node hclsyntax.Node) hcl.Diagnostics {
@@ -523,8 +556,22 @@ func (w *rangeWalker) Exit(node hclsyntax.Node) hcl.Diagnostics {
 			}
 		}
 	}
+	if isErrPlaceholder(node) {
+		f.tainted = true
+	}
 	for _, ch := range f.children {
+		if ch.tainted {
+			f.tainted = true
+		}
 		if _, anon := ch.node.(*hclsyntax.AnonSymbolExpr); anon {
+			continue
+		}
+		if ch.tainted {
+			// only the start side is asserted (see the type comment)
+			if ch.rng.Start.Byte < f.rng.Start.Byte {
+				ctn := typeName(ch.node)
+				w.add(depth, f.rng.Start.Byte, core.V("range|child-starts-before-parent|"+ctn+"|in|"+tn, "child %s %d..%d starts before its parent %s %d..%d", ctn, ch.rng.Start.Byte, ch.rng.End.Byte, tn, f.rng.Start.Byte, f.rng.End.Byte))
+			}
 			continue
 		}
 		if !inside(ch.rng, f.rng) {
@@ -533,7 +580,7 @@ func (w *rangeWalker) Exit(node hclsyntax.Node) hcl.Diagnostics {
 		}
 	}
 	if parent != nil {
-		parent.children = append(parent.children, childInfo{node, f.rng})
+		parent.children = append(parent.children, childInfo{node, f.rng, f.tainted})
 	}
 	return nil
 }
@@ -544,6 +591,11 @@ func (w *rangeWalker) result() *core.Violation {
 	}
 	sort.SliceStable(w.found, func(i, j int) bool {
 		a, b := w.found[i], w.found[j]
+		if a.unset != b.unset {
+			// a range that was never filled in explains the inverted / non-nested ranges
+			// derived from it: name the cause
+			return a.unset
+		}
 		if a.depth != b.depth {
 			return a.depth > b.depth
 		}
@@ -861,7 +913,9 @@ func runEntry(entry string, src []byte, o *obs) *core.Violation {
 				}
 			}
 		}
-		if r := file.Body.MissingItemRange(); rangeProblem(r, n) != "" {
+		// (with an error diagnostic the root body is a documented empty placeholder whose
+		// close range is not filled in; MissingItemRange is only looked at for a real body)
+		if r := file.Body.MissingItemRange(); !o.hasErr && rangeProblem(r, n) != "" {
 			return core.V("range|json-node|"+rangeProblem(r, n)+"|MissingItemRange()", "body MissingItemRange %d..%d (input has %d bytes)", r.Start.Byte, r.End.Byte, n)
 		}
 		if !o.hasErr {
